@@ -158,6 +158,21 @@ class Extractor:
             out.append(self._letter(e, fn))
             self.ops += 1
             return out
+        if k == "let" and isinstance(e.get("init"), dict) and e["init"].get("k") == "closure" \
+                and isinstance(e.get("pat"), dict) and e["pat"].get("k") == "bind":
+            # a closure bound to a local (`let mut next_challenge = || sponge.squeeze..`): its transcript operations
+            # happen where it is called, not where it is written down
+            lc = self.__dict__.setdefault("_lclos", {}).setdefault(fn["id"], {})
+            lc[e["pat"]["name"]] = e["init"]
+            return out
+        if k == "call" and (e.get("res") == "local" or (isinstance(e.get("f"), dict) and e["f"].get("res") == "local")):
+            lc = self.__dict__.get("_lclos", {}).get(fn["id"], {})
+            clo = lc.get(e.get("name") if e.get("res") == "local" else e["f"].get("name"))
+            if clo is not None:
+                for c in e.get("args", []):
+                    out.extend(self._items(c, fn, names, depth, stack))
+                out.extend(self._items(clo["body"], fn, names, depth, stack))
+                return out
         if k in ("call", "mcall"):
             for c in ([e["recv"]] if k == "mcall" else []) + ([e["f"]] if "f" in e else []) + e.get("args", []):
                 out.extend(self._items(c, fn, names, depth, stack))
@@ -167,6 +182,10 @@ class Extractor:
             return out
         if k == "loop":
             inner = self._items(e["body"], fn, names, depth, stack)
+            # `while cond { .. }` / `while let Some(x) = it.next() { .. }` desugar to `loop { if/match .. else break }`:
+            # the single non-empty arm is the loop body, the test is the loop condition
+            if len(inner) == 1 and inner[0][0] == "branch" and len(inner[0]) == 3 and self._is_while(e["body"]):
+                inner = list(inner[0][2])
             return [("loop", inner)] if inner else []
         if k == "match" and e.get("src") == "for":
             # desugared for: the iterator expression, then the loop inside the single arm
@@ -197,6 +216,35 @@ class Extractor:
         for c in children(e):
             out.extend(self._items(c, fn, names, depth, stack))
         return out
+
+    @staticmethod
+    def _is_while(body):
+        """the loop body is a single `if` / `match` one arm of which is just `break` (a desugared while / while let)."""
+        e = body
+        while isinstance(e, dict) and e.get("k") == "block":
+            items = list(e.get("stmts", [])) + ([e["e"]] if "e" in e else [])
+            if len(items) != 1:
+                return False
+            e = items[0]
+            if isinstance(e, dict) and e.get("k") == "stmt":
+                e = e.get("e")
+        if not isinstance(e, dict):
+            return False
+
+        def only_break(x):
+            while isinstance(x, dict) and x.get("k") == "block":
+                items = list(x.get("stmts", [])) + ([x["e"]] if "e" in x else [])
+                if len(items) != 1:
+                    return False
+                x = items[0]
+                if isinstance(x, dict) and x.get("k") == "stmt":
+                    x = x.get("e")
+            return isinstance(x, dict) and x.get("k") == "break"
+        if e.get("k") == "if":
+            return "else" in e and only_break(e["else"])
+        if e.get("k") == "match":
+            return any(only_break(a["body"]) for a in e.get("arms", []))
+        return False
 
     def _guard(self, cond, fn):
         """names of the resolved methods / fields the guard is computed from (let-bound locals expanded once)."""
